@@ -319,7 +319,7 @@ fn read(rng: &mut Rng, ctx: &mut Ctx) {
         // the debug option (event payloads dumped into a directory) changes nothing about the result
         if k % 10 == 4 {
             let dir = std::env::temp_dir().join(format!("pv-debug-{}-{}", std::process::id(), k)); let _ = std::fs::remove_dir_all(&dir);
-            for (skip, hsh) in [(false, k % 20 == 4), (true, false)] { if skip && r.end.is_none() { continue; }
+            for (skip, hsh) in [(false, k % 20 == 4), (true, k % 20 == 14)] { if skip && r.end.is_none() { continue; }
                 let o = slippi::de::Opts { skip_frames: skip, compute_hash: hsh, debug: Some(slippi::de::Debug { dir: dir.clone() }) };
                 let res = std::panic::catch_unwind(|| slippi::read(Cursor::new(&b), Some(&o)));
                 let dl = match res { Err(_) => "panic".to_string(), Ok(Err(e)) => format!("err {}", e), Ok(Ok(g)) => { let mut s = dump::summary(&g); s } };
@@ -448,6 +448,25 @@ fn roll(rng: &mut Rng, ctx: &mut Ctx) {
             Ok((a, b)) => { c.impl_out = format!("ok {} {}", a == exp, b == exp); if a != exp { c.fail("C15", "mask of the long game differs from the reference (first call)"); }
                 if b != exp { c.fail("C15", format!("mask of a game asked again after {} calls on other games differs from the reference ({} rows differ)", run, b.iter().zip(&exp).filter(|(x, y)| x != y).count())); } } }
         ctx.push(c); } }
+    // the id column edited in place between two calls of the same mode (arrow2's own `get_mut_values`), length, first and last id unchanged; and a game
+    // dropped, then another of the same size with the same first and last id built (and likely placed where the first one was): the mask is a function of
+    // the ids that are there now
+    for variant in 0..6usize { for (mode, first) in [(Rollbacks::ExceptFirst, true), (Rollbacks::ExceptLast, false)] {
+        let n = [8usize, 40, 300, 1030, 9, 64][variant];
+        let ids_a: Vec<i32> = (0..n as i32).map(|i| -123 + i - if i as usize > n / 2 { 2 } else { 0 }).collect();           // one rollback of two frames in the middle
+        let mut ids_b: Vec<i32> = (0..n as i32).map(|i| -123 + i).collect(); let last = *ids_a.last().unwrap(); *ids_b.last_mut().unwrap() = last; ids_b[n / 3] = ids_b[n / 3 - 1]; // other repeats, same ends
+        let res = std::panic::catch_unwind(|| {
+            let mut f = im::Frame { id: PrimitiveArray::from_vec(ids_a.clone()), ports: vec![], start: None, end: None, item_offset: None, item: None };
+            let a = f.rollbacks(mode);
+            let b = if variant % 2 == 0 { if let Some(v) = f.id.get_mut_values() { v.copy_from_slice(&ids_b); } else { f.id = PrimitiveArray::from_vec(ids_b.clone()); } f.rollbacks(mode) }
+                else { drop(f); let g = im::Frame { id: PrimitiveArray::from_vec(ids_b.clone()), ports: vec![], start: None, end: None, item_offset: None, item: None }; g.rollbacks(mode) };
+            (a, b) });
+        let (ea, eb) = (reference(&ids_a, first), reference(&ids_b, first));
+        let mut c = Case::new(format!("rollseq {} edit{}", if first { "first" } else { "last" }, variant), String::new()); c.tags = vec![format!("rollseq-{}", if variant % 2 == 0 { "edited-in-place" } else { "dropped-and-rebuilt" })];
+        match res { Err(_) => { c.impl_out = "panic".into(); c.fail("C15", "rollbacks() panicked in a call sequence"); }
+            Ok((a, b)) => { c.impl_out = format!("ok {} {}", a == ea, b == eb); if a != ea { c.fail("C15", "mask differs from the reference (first call)"); }
+                if b != eb { c.fail("C15", format!("second call of the same mode on {} of {} rows: the mask is not the one of the ids that are there now ({} rows differ)", if variant % 2 == 0 { "an id column edited in place" } else { "a new game of the same size built after the first was dropped" }, n, b.iter().zip(&eb).filter(|(x, y)| x != y).count())); } } }
+        ctx.push(c); } }
 }
 
 fn arrow(rng: &mut Rng, ctx: &mut Ctx) {
@@ -499,6 +518,16 @@ fn arrow(rng: &mut Rng, ctx: &mut Ctx) {
                 // the row view of such a frame table lists the ports in the order of the columns, each with its own column's values
                 for i in 0..n.min(4) { let t = g2.frames.transpose_one(i, ver); if let Err(e) = compare_view(&t, &g2.frames, i) { win_err = Some(format!("ports listed as {:?}: {}", order, e)); break; } }
             }
+            // a frame table that records a character's absence only where the .slp writer looks for it — the bitmap of the leader / follower struct — and
+            // not in the nested pre / post structs (a user-built table; an Arrow producer that masks only the outer struct): export and import keep it
+            if k % 3 != 1 { let mut fe = im::Frame::from_struct_array(sa.clone(), ver); let mut stripped = false;
+                for p in fe.ports.iter_mut() { for d in std::iter::once(&mut p.leader).chain(p.follower.iter_mut()) { if d.validity.is_some() { d.pre.validity = None; d.post.validity = None; stripped = true; } } }
+                if stripped { let mut want = vec![]; let g3 = Game { start: g2.start.clone(), end: g2.end.clone(), frames: fe, metadata: g2.metadata.clone(), gecko_codes: None, hash: None, quirks: g2.quirks };
+                    let ww = slippi::write(&mut want, &Game { gecko_codes: g2.gecko_codes.as_ref().map(|c| peppi::game::GeckoCodes { bytes: c.bytes.clone(), actual_size: c.actual_size }), ..g3 });
+                    let fe2 = { let mut f = im::Frame::from_struct_array(sa.clone(), ver); for p in f.ports.iter_mut() { for d in std::iter::once(&mut p.leader).chain(p.follower.iter_mut()) { if d.validity.is_some() { d.pre.validity = None; d.post.validity = None; } } } f };
+                    let back = im::Frame::from_struct_array(fe2.into_struct_array(ver, &ports), ver);
+                    let mut got = vec![]; let wg = slippi::write(&mut got, &Game { start: g2.start.clone(), end: g2.end.clone(), frames: back, metadata: g2.metadata.clone(), gecko_codes: g2.gecko_codes.as_ref().map(|c| peppi::game::GeckoCodes { bytes: c.bytes.clone(), actual_size: c.actual_size }), hash: None, quirks: g2.quirks });
+                    if ww.is_ok() != wg.is_ok() || (ww.is_ok() && want != got) { win_err = Some(format!("absence recorded only in the leader / follower bitmap (nested pre / post bitmaps unset): after export and import the written file differs ({} vs {} bytes)", got.len(), want.len())); } } }
             if let Some(e) = win_err { return Err(format!("WINDOW {}", e)); }
             // every exported per-character column, addressed by NAME, holds the values the spec puts at that field's offset in the
             // occurrence of that frame (independent of the in-memory representation and of the import side)
@@ -755,7 +784,13 @@ fn ubj(rng: &mut Rng, ctx: &mut Ctx) {
         let run = k % 16 == 7 && k % 20 != 19; /* (never in place of a deep or wide tree) */
         if run { const MARKERS: &[u8] = b"[{#$NZTFiUIlLdDCSH]}"; let j = k / 16; let mk = if j < MARKERS.len() { MARKERS[j] } else { (j - MARKERS.len()) as u8 }; let depth = if ctx.thorough { 1_000_000 } else { 400_000 };
             body.clear(); body.extend(b"U\x01a"); body.extend(std::iter::repeat(mk).take(depth)); clean = false; }
-        let structured = k % 20 == 19 || run; // the deep and the wide trees stay as built
+        // long keys and values (200 / 255 bytes) made of one multi-byte character after a short ASCII prefix, so that characters straddle every
+        // multiple of 64 (a reader that decodes a string in blocks must not cut a character)
+        let longstr = k % 16 == 11 && k % 20 != 19;
+        if longstr { let ch = ["€", "é", "😀", "あ"][(k / 16) % 4]; let j = (k / 16 + k / 64) % 3;
+            let mk = |total: usize| -> Vec<u8> { let mut v: Vec<u8> = std::iter::repeat(b'a').take(j).collect(); while v.len() + ch.len() <= total { v.extend(ch.as_bytes()); } v };
+            let (key, val) = (mk(200), mk(255)); body.clear(); body.push(b'U'); body.push(key.len() as u8); body.extend(&key); body.extend(b"SU"); body.push(val.len() as u8); body.extend(&val); clean = true; }
+        let structured = k % 20 == 19 || run || longstr; // the deep and the wide trees stay as built
         if k % 9 == 8 && !structured && !body.is_empty() { let i = (rng.next() as usize) % body.len(); body[i] = (rng.next() >> 8) as u8; clean = false; }
         // a length written with another UBJSON integer type (`l` int32, `i` int8, `I` int16, `L` int64) — negative, zero, small, huge — where the
         // format subset has `U`: for a string value or for a key
